@@ -77,6 +77,10 @@ class P:
         if self.strict and t[1] in RESERVED and t[1] not in TYPE_POSITION_OK:
             raise ExtractError(f"reserved word `{t[1]}` used as a type name without back-ticks at line {t[2]}")
         name = bare(t[1])
+        # `Pre` directly followed by a back-ticked identifier (Pre`Protocol`) is not Swift; whether the FILE is well-formed is C10's
+        # question - here the spelling is reported as it is written, so that C09 can compare it with the definition name
+        while self.c.kind() == "id" and self.c.text().startswith("`") and not t[1].startswith("`"):
+            name += self.c.next()[1]
         while self.c.at(".") and self.c.kind(1) == "id":
             if stop_at_self and self.c.text(1) == "self":
                 break
